@@ -160,4 +160,141 @@ theorem postValueV2_ok (p : Parser) (lpl out : Str) : ∃ v, postValueV2 p lpl o
   rw [hv]
   exact ⟨_, rfl⟩
 
+/-! ### phase 4: `_process_start_flow` with its try/except, the `generate_events` loop -/
+
+theorem processStartFlowE_cases {ε δ : Type} (parse : ParseOracle ε) (ns : Str → Except δ (List Ev)) (f b : Str) :
+    (processStartFlowTry parse f (dynamicFlowSource f b) = .passed ∧ processStartFlowE parse ns f b = ns (dynamicFlowSource f b))
+    ∨ (processStartFlowTry parse f (dynamicFlowSource f b) ≠ .passed ∧ processStartFlowE parse ns f b = .ok [.botIntent generalResponse]) := by
+  unfold processStartFlowE
+  cases h : processStartFlowTry parse f (dynamicFlowSource f b) <;> simp [h]
+
+theorem tryPassed_iff {ε : Type} (parse : ParseOracle ε) (f src : Str) :
+    processStartFlowTry parse f src = .passed ↔ parse src = .ok [f] := by
+  unfold processStartFlowTry
+  cases h : parse src with
+  | error e => simp
+  | ok flows =>
+    match flows with
+    | [] => simp [oneFlowWithId]
+    | [g] => simp [oneFlowWithId]
+    | _ :: _ :: _ => simp [oneFlowWithId]
+
+theorem lastEv_append_some (a b : List Ev) (hb : b ≠ []) : lastEv (a ++ b) = lastEv b := by
+  induction a with
+  | nil => rfl
+  | cons x xs ih =>
+    cases hxs : xs ++ b with
+    | nil => simp_all
+    | cons y ys => simp only [List.cons_append, hxs, lastEv]; rw [← hxs]; exact ih
+
+/-- outcome classes of the loop -/
+theorem genLoop_spec {δ : Type} (step : List Ev → Except δ (List Ev)) :
+    ∀ (fuel : Nat) (events new : List Ev),
+      (∃ l, genLoop step fuel events new = .ok l ∧ l ≠ [] ∧ lastEv l = some .listen)
+      ∨ genLoop step fuel events new = .error .tooManyEvents
+      ∨ (∃ evs e, step evs = .error e ∧ genLoop step fuel events new = .error (.raised e)) := by
+  intro fuel
+  induction fuel with
+  | zero => intro events new; right; left; rfl
+  | succ n ih =>
+    intro events new
+    unfold genLoop
+    cases hs : step events with
+    | error e => right; right; exact ⟨events, e, hs, rfl⟩
+    | ok next0 =>
+      simp only
+      split
+      · rename_i hl
+        left
+        refine ⟨_, rfl, ?_, ?_⟩
+        · have := orListen_ne_nil next0; intro h; simp_all
+        · rw [lastEv_append_some _ _ (orListen_ne_nil next0)]; simpa using hl
+      · split
+        · right; left; rfl
+        · exact ih _ _
+
+theorem genLoop_tooMany_real {δ : Type} (step : List Ev → Except δ (List Ev)) :
+    ∀ (fuel : Nat) (events new : List Ev), 102 ≤ fuel + new.length →
+      genLoop step fuel events new = .error .tooManyEvents → ∃ extra, (new ++ extra).length > 100 := by
+  intro fuel
+  induction fuel with
+  | zero => intro events new h _; exact ⟨[], by simp; omega⟩
+  | succ n ih =>
+    intro events new hlen h
+    unfold genLoop at h
+    cases hs : step events with
+    | error e => simp [hs] at h
+    | ok next0 =>
+      simp only [hs] at h
+      split at h
+      · simp at h
+      · split at h
+        · rename_i hgt; exact ⟨orListen next0, hgt⟩
+        · have hne := orListen_ne_nil next0
+          have hpos : 0 < (orListen next0).length := List.length_pos_iff.2 hne
+          obtain ⟨extra, hx⟩ := ih (events ++ orListen next0) (new ++ orListen next0) (by simp; omega) h
+          exact ⟨orListen next0 ++ extra, by simpa [List.append_assoc] using hx⟩
+
+theorem processStartFlowE_error {ε δ : Type} (parse : ParseOracle ε) (ns : Str → Except δ (List Ev)) (f b : Str) (d : δ)
+    (h : processStartFlowE parse ns f b = .error d) :
+    parse (dynamicFlowSource f b) = .ok [f] ∧ ns (dynamicFlowSource f b) = .error d := by
+  rcases processStartFlowE_cases parse ns f b with ⟨hp, he⟩ | ⟨_, he⟩
+  · exact ⟨(tryPassed_iff parse f _).1 hp, by rw [← he]; exact h⟩
+  · rw [he] at h; cases h
+
+theorem stepMS_error {ε δ : Type} (parse : ParseOracle ε) (ns : Str → Except δ (List Ev)) (cont : List Ev → Except δ (List Ev))
+    (f : Str) (evs : List Ev) (d : δ) (h : stepMS parse ns cont f evs = .error d) :
+    (∃ s, parse s = .ok [f] ∧ ns s = .error d) ∨ cont evs = .error d := by
+  unfold stepMS at h
+  split at h
+  · left; exact ⟨_, processStartFlowE_error parse ns f _ d h⟩
+  · right; exact h
+
+/-! ### phase 4: the repaired loop; the `literal_eval` wrapper -/
+
+theorem lastEv_internalError_listen (new : List Ev) : lastEv (new ++ (internalErrorEvents ++ [.listen])) = some .listen := by
+  rw [lastEv_append_some _ _ (by simp [internalErrorEvents])]; rfl
+
+theorem genLoopR_spec (step : List Ev → List Ev) :
+    ∀ (fuel : Nat) (events new : List Ev), genLoopR step fuel events new ≠ [] ∧ lastEv (genLoopR step fuel events new) = some .listen := by
+  intro fuel
+  induction fuel with
+  | zero =>
+    intro events new
+    exact ⟨by simp [genLoopR, internalErrorEvents], by simpa [genLoopR] using lastEv_internalError_listen new⟩
+  | succ n ih =>
+    intro events new
+    unfold genLoopR
+    simp only
+    split
+    · rename_i hl
+      have hne := orListen_ne_nil (step events)
+      exact ⟨by intro h; simp_all, by rw [lastEv_append_some _ _ hne]; simpa using hl⟩
+    · split
+      · exact ⟨by simp [internalErrorEvents], lastEv_internalError_listen _⟩
+      · exact ih _ _
+
+theorem generateValueV2R_spec {ε : Type} (literalEval : Str → Except ε Lit) (p : Parser) (lpl out : Str) :
+    (∃ x, generateValueV2R literalEval p lpl out = .ok x ∧ x.isPlain = true)
+    ∨ ∃ v, generateValueV2R literalEval p lpl out = .error (.invalidLlmResponse v) := by
+  obtain ⟨v, hv⟩ := postValueV2_ok p lpl out
+  unfold generateValueV2R
+  simp only [hv]
+  cases h : literalEval v with
+  | error e => right; exact ⟨v, by simp⟩
+  | ok x =>
+    cases hp : x.isPlain with
+    | true => left; exact ⟨x, by simp [hp], hp⟩
+    | false => right; exact ⟨v, by simp [hp]⟩
+
+theorem generateValueV2_spec {ε : Type} (literalEval : Str → Except ε Lit) (p : Parser) (lpl out : Str) :
+    (∃ x, generateValueV2 literalEval p lpl out = .ok x)
+    ∨ ∃ v, generateValueV2 literalEval p lpl out = .error (.invalidLlmResponse v) := by
+  obtain ⟨v, hv⟩ := postValueV2_ok p lpl out
+  unfold generateValueV2
+  simp only [hv]
+  cases h : literalEval v with
+  | error e => right; exact ⟨v, by simp⟩
+  | ok x => left; exact ⟨x, by simp⟩
+
 end NemoVerif.LlmText
